@@ -16,6 +16,7 @@ func propC18(c *Ctx) propInfo {
 	c.proofRootLayout()
 	c.maskPropagation()
 	c.proveKeyRules()
+	c.proveWalkArithmetic()
 	c.cursorFreshness()
 	c.prunedAccessors() // the proof stores Hash(0)/Depth(0) read through these accessors
 	c.levelMaskAlgebra()
@@ -437,4 +438,56 @@ func (c *Ctx) cursorFreshness() {
 		c.check(okv && n == 1 && look, R, "pruneCells tests its own position and hands each child its own position", f.Pos(), "pruned[path]; child i gets path+i", "pruneCells no longer decides by the position it was given / no longer extends the position per reference")
 	}
 	c.floor(R, 6)
+}
+
+// proveWalkArithmetic: the proof walk follows hm_edge#_ {n} {l} {m} label:(HmLabel ~l n) {n = (~m) + l}
+// node:(HashmapNode m ...) with hmn_fork#_ {n} left:^(Hashmap n X) ... = HashmapNode (n + 1) X: after a
+// label of l bits and one branch bit, remaining' = remaining - l - 1; the node is a leaf exactly when
+// the label exhausts the key (remaining == l), so the walk goes on only while remaining > l. The
+// bound handed to the label reader decides the width of hml_long's length field, so a wrong
+// remaining misreads every deeper label.
+func (c *Ctx) proveWalkArithmetic() {
+	const R = "E8.prove-key"
+	f := c.fn("tlb", "ProveKeyInHashmap")
+	if f == nil {
+		return
+	}
+	var ll *ssa.Call
+	for _, cl := range callsTo(f, modPath+"/tlb.loadLabel") {
+		ll = cl
+	}
+	if ll == nil {
+		c.bad(R, "the walk reads each label with the remaining key length", f.Pos(), "ProveKeyInHashmap no longer calls loadLabel (undecided)")
+		return
+	}
+	rem, ok := ll.Call.Args[0].(*ssa.Phi)
+	if !ok {
+		c.bad(R, "the walk reads each label with the remaining key length", ll.Pos(), "the bound passed to loadLabel is not a loop-carried value (undecided)")
+		return
+	}
+	var size ssa.Value
+	for _, r := range realRefs(ll) {
+		if ex, ok := r.(*ssa.Extract); ok && ex.Index == 0 {
+			size = ex
+		}
+	}
+	var upd ssa.Value
+	for _, e := range rem.Edges {
+		if derivesFrom(e, func(v ssa.Value) bool { return v == ssa.Value(rem) }, false) && e != ssa.Value(rem) {
+			upd = e
+		}
+	}
+	if size == nil || upd == nil {
+		c.bad(R, "remaining' = remaining - label length - 1", ll.Pos(), "the loop-carried remaining length is not updated from the label length (undecided)")
+		return
+	}
+	ui, ok := upd.(ssa.Instruction)
+	if !ok {
+		return
+	}
+	p := c.newProver(f, ui.Block())
+	d := p.lin(upd).sub(p.lin(rem)).add(p.lin(size)).addConst(1)
+	c.check(d.isConst() && d.k.Sign() == 0, R, "remaining' = remaining - label length - 1", upd.Pos(), "one label and one branch bit are consumed per level", "ProveKeyInHashmap updates the remaining key length to "+shape(upd, 4)+"; each level consumes the label and one branch bit (remaining - size - 1): with any other value the length field of every deeper hml_long label is read with the wrong width")
+	// the walk continues only while the label is shorter than the remaining key
+	c.check(p.prove(p.lin(rem).sub(p.lin(size)).addConst(-1)), R, "the walk descends only while remaining > label length", upd.Pos(), "remaining - size - 1 >= 0 on the descending path", "ProveKeyInHashmap descends although the label may already cover the whole remaining key (remaining == label length is the leaf): the value of a key that IS present is then reported as an error")
 }
